@@ -40,9 +40,13 @@ def gen_variant_case(rng, with_pm=True):
         # integer-coded population on an integral box (decision vectors stored as int64; offspring are real-valued)
         lo = np.array([float(rng.randint(-6, 0)) for _ in range(v)]); hi = lo + np.array([float(rng.randint(0, 9)) for _ in range(v)])
         Xi = np.array([[float(rng.randint(int(lo[j]), int(hi[j]))) for j in range(v)] for _ in range(n)])
+        if rng.random() < 0.5:      # the usual half-unit margins of integer-coded variables
+            lo = lo - 0.5; hi = hi + 0.5
         case.update(xl=enc(lo), xu=enc(hi), X=enc(Xi), kinds=["integral"] * v, xdtype="int64", pm=False)
     if rng.random() < 0.25:
         case["rand_values"] = [float(rng.choice([0.0, gens.ONE_M, 0.5, 2.0 ** -53, rng.random()])).hex() for _ in range(13)]
+    if rng.random() < 0.2:
+        case["prime"] = True
     return case
 
 
@@ -66,6 +70,15 @@ def run_variant(case):
             ind.set("rank", r)
     prob = make_problem(xl, xu)
     rv = [float.fromhex(h) for h in case["rand_values"]] if "rand_values" in case else None
+    if case.get("prime"):
+        # the operator object has been used before, on a problem with the same number of variables and a wider box
+        prob0 = make_problem(xl - 1.0 - 0.5 * np.abs(xl), xu + 2.0 + 0.5 * np.abs(xu))
+        pop0 = Population.new("X", X.copy())
+        for ind, r in zip(pop0, case["ranks"]):
+            if r is not None:
+                ind.set("rank", r)
+        np.random.seed(case["seed"] + 7)
+        dv.do(prob0, pop0, len(pop0))
     np.random.seed(case["seed"])
     mark = {}
     with Recorder(rand_values=rv) as rec:
@@ -101,7 +114,7 @@ class C01(Check):
     ID = "C01"
     IMPORTS = "From PV Require Import Model.Repair Model.Mutate Model.Cross Model.Select Model.Variant."
     RULE = ("DifferentialVariant(variant, CR, F, gamma, de_repair[, PM]).do on bounded problems with in-box parents (15% of coordinates on each bound; "
-            "zero-width / 1-ulp / tiny / asymmetric / large ranges; 12% integer-coded int64 populations on integral boxes), all 6 selections x 1..3 differences x bin/exp x 4 repairs, F up to 7, gamma up to 1.9, "
+            "zero-width / 1-ulp / tiny / asymmetric / large ranges; 12% integer-coded int64 populations on integral or half-integral boxes; in 20% of the cases the operator object has served a problem with a wider box before), all 6 selections x 1..3 differences x bin/exp x 4 repairs, F up to 7, gamma up to 1.9, "
             "recorded and boundary-scripted draws; the whole pipeline (selection -> mutation -> repair -> crossover) is compared bit-exactly with the model, "
             "PM (if any) is an oracle whose output is checked against the box; non-trivial = at least one repair draw or a tiny/zero range; distinct by hash")
     ASSUMPTIONS = ["exact-arithmetic theorem (Q): rounding in bounce-back/rand-init is covered only by the bit-exact runs plus the float box check on every offspring",
@@ -140,6 +153,8 @@ class C01(Check):
         if case["pm"]: out.append("with-PM")
         if "rand_values" in case: out.append("scripted-draws")
         out += ["range-" + k for k in set(case["kinds"])]
+        if case.get("prime"): out.append("operator-reused")
+        if "xdtype" in case: out.append("population-" + case["xdtype"])
         return out
 
     def explain(self, case, obs):
